@@ -345,8 +345,8 @@ func VF_C12_zadd_incr() {
 	}
 	d := vfFloat64("delta")
 	vfAssume(d == d)
-	xx, nx := vfBool("xx"), vfBool("nx")
-	vfAssume(!(xx && nx))
+	opt := vfChoice("opt", 5)
+	xx, nx, gt, lt := opt == 1, opt == 2, opt == 3, opt == 4
 	args := [][]byte{bs("zadd"), bs("z")}
 	if xx {
 		args = append(args, bs("XX"))
@@ -354,17 +354,26 @@ func VF_C12_zadd_incr() {
 	if nx {
 		args = append(args, bs("NX"))
 	}
+	if gt {
+		args = append(args, bs("gt"))
+	}
+	if lt {
+		args = append(args, bs("LT"))
+	}
 	args = append(args, vfCase("incrcase", "incr"), vfFloatStr(d), bs("a"))
 	got := hExec(m, args...)
 	j := z.find("a")
+	ns := d
+	if j >= 0 {
+		ns = z[j].score + d
+	}
 	switch {
 	case (j < 0 && xx) || (j >= 0 && nx):
 		vfAssert(got.k == rNil, "zadd-incr-vetoed-reply-nil")
+	case j >= 0 && ns == ns && ((gt && !(ns > z[j].score)) || (lt && !(ns < z[j].score))):
+		// GT/LT compare the resulting score with the current one
+		vfAssert(got.k == rNil, "zadd-incr-gt-lt-vetoed-reply-nil")
 	default:
-		ns := d
-		if j >= 0 {
-			ns = z[j].score + d
-		}
 		if ns != ns {
 			vfAssert(got.k == rErr, "zadd-incr-nan-rejected")
 		} else {
